@@ -750,7 +750,10 @@ def simplify_constrained_range(source: str) -> str:
             continue
 
         redundant_conditions = set()
-        for condition in core.filter_nodes(conditions, templates):
+        # Iterate in source order; set iteration order depends on object addresses.
+        for condition in sorted(
+            core.filter_nodes(conditions, templates), key=lambda c: (c.lineno, c.col_offset)
+        ):
             if isinstance(condition.left, ast.Constant):
                 comparator = condition.left
             else:
